@@ -487,7 +487,7 @@ Definition ceil_log2 (x : N) : N := if 2 ^ N.log2 x =? x then N.log2 x else N.lo
 Definition xs : list N := flat_map (fun k => [2 ^ k - 1; 2 ^ k; 2 ^ k + 1]) (map N.of_nat (seq 0 64)).
 Definition badx := filter (fun x => (0 <? x) && (x <? W64) &&
    negb ((run ShiftsGen.prog x =? ceil_log2 x) && (ShiftsGen.calculate_shifts x =? ceil_log2 x))) xs.
-Eval vm_compute in (map (fun x => (x, run ShiftsGen.prog x, ceil_log2 x)) (firstn 3 badx)).
+Eval vm_compute in (map (fun x => (x, run ShiftsGen.prog x, ceil_log2 x)) badx).
 """
 
 
@@ -505,7 +505,7 @@ def sweep_regenerated():
     return [(int(a), int(b), int(c)) for a, b, c in nums], out[-800:]
 
 
-def search_shift_failure(ctx, impl, why):
+def search_shift_failure(ctx, impl, why, regenerated_ok=True):
     """The tie gen_matches (or the translation itself) broke: look for a concrete x with
     calculate_shifts x != ceil(log2 x), in the regenerated definition and on the real code."""
     xs = [x for x in boundaries() if x > 0]
@@ -514,7 +514,8 @@ def search_shift_failure(ctx, impl, why):
     for x, o in zip(xs, outs):
         if o != "s %d" % ceil_log2(x):
             real_bad.append((x, o, ceil_log2(x)))
-    model_bad, log = sweep_regenerated()
+    # an untranslatable source leaves only a placeholder in Gen/ShiftsGen.v: nothing to sweep
+    model_bad, log = sweep_regenerated() if regenerated_ok else (None, "")
     ctx.cov["tie_break_search"] = {"reason": why, "real_code_failures": len(real_bad),
                                    "regenerated_definition_failures": None if model_bad is None else len(model_bad)}
     if real_bad:
@@ -633,11 +634,14 @@ def run(ctx):
         tie = tr_err or ("gen_matches" in " ".join(res["failed"])) or ("Pool/Shifts.v" in log and "gen_matches" in log) or ("Gen/ShiftsGen.v" in log and "Error" in log)
         found = False
         if tie:
-            found = search_shift_failure(ctx, impl, tr_err or "regenerated program differs from the reviewed copy")
+            found = search_shift_failure(ctx, impl, tr_err or "regenerated program differs from the reviewed copy",
+                                         regenerated_ok=not tr_err)
         if not found:
-            if res["ok"] and tr_err:
-                ctx.violation("translator", {"kind": "proof-obligation", "no_longer_checks": ["Pool/Shifts.v:gen_matches (source no longer translatable: %s)" % tr_err]}, False,
-                              "calculate_shifts is outside the translatable fragment (%s); no boundary value disagrees with ceil(log2 x)" % tr_err)
+            if tr_err:
+                ctx.violation("translator", {"kind": "proof-obligation",
+                                             "no_longer_checks": ["Pool/Shifts.v:gen_matches (source no longer translatable: %s)" % tr_err] + list(res.get("failed", [])),
+                                             "searched": "calculate_shifts on the real code at all size-class boundaries 2^k-1, 2^k, 2^k+1 (k=0..63) and in the pool/shift correspondences of this run: no x with result != ceil(log2 x)"}, False,
+                              "obligation gen_matches (Pool/Shifts.v) no longer checks: calculate_shifts is outside the translatable fragment (%s); no boundary value disagrees with ceil(log2 x) on the real code" % tr_err)
             else:
                 ctx.proof_broken({"translator": tr_err} if tr_err else None)
 
